@@ -1,4 +1,5 @@
 import MitmVerif.Model.C48
+import MitmVerif.Model.C48_Url
 import Driver.Proto
 open MitmVerif Driver MitmVerif.C48
 
@@ -70,6 +71,18 @@ def stepLine (line : String) : String :=
       | some raw => "raw=" ++ showBytes raw ++ ";back=" ++ (if (if isChunked r.fields then parseRawChunked raw else parseRaw raw) = some r then "same" else "differs")
       | none => "error"
     | _, _, _, _, _, _, _ => "bad-op"
+  | ["url", sch, host, port, path] =>
+    -- ASCII only: bytes are code points
+    match hexOr sch, hexOr host, port.toNat?, hexOr path with
+    | some sch, some host, some port, some path =>
+      let toU : Bytes → UStr := fun b => b.map (·.toNat)
+      let toB : UStr → Bytes := fun u => u.map UInt8.ofNat
+      let u := C33.unparse (toU sch) (toU host) port (toU path)
+      "url=" ++ showBytes (toB u) ++ ";dial=" ++
+        (match dial u with
+         | some (h, p) => showBytes (toB h) ++ ":" ++ (match p with | some d => showBytes (toB d) | none => "none")
+         | none => "unreadable")
+    | _, _, _, _ => "bad-op"
   | _ => "bad-op"
 
 end C48Driver
